@@ -27,7 +27,7 @@ func (e *C13) Assumptions() []string {
 }
 func (e *C13) Plan(tier string, seed uint64) int {
 	if tier == "thorough" {
-		return 250000 + 2*1100
+		return 1000000 + 2*1100
 	}
 	return 30000 + 2*1100
 }
